@@ -537,7 +537,11 @@ def probe_tree(ctx):
 
 
 def run(ctx):
-    fw.static_proofs(ctx, ['Properties/C06.v'])
+    # T-gen for the writer part of Model/Fjm.v: Writer.add_data / add_segment (+ helpers) are re-translated from the current
+    # source into the IR of Model/PyIR.v and proved equal to the hand model (Tie/Writer_tie.v, Properties/C06_source.v)
+    from .. import writer_source
+    src_props, src_targets = writer_source.prepare(ctx)
+    fw.static_proofs(ctx, ['Properties/C06.v'] + src_props, extra_targets=src_targets)
     pr = probe_tree(ctx)
     tie_constants(ctx, pr)
     cases = [gen_case(ctx.rng) for _ in range(ctx.n(1500, 30000))]
@@ -572,6 +576,7 @@ def run(ctx):
                     'observed': {'opres': o['opres'], 'write': o['write'], 'read_class': o['read']['cls'],
                                  'segs': o['read'].get('segs'), 'zeros': o['read'].get('zeros')}})
     compare(ctx, 'c06', cases, obs, terms)
+    writer_source.compare(ctx, HEADER, terms)     # the regenerated methods (PyIR.exec in Coq) against the same observations
     asm_campaign(ctx)
     large_window(ctx)
     ctx.coverage['rule'] = ('random Writer call sequences (interleaved or pool-first with shared/odd-offset data ranges, data '
